@@ -96,4 +96,40 @@ let do_enumproc toks =
      | Outcome.Err -> "err" | Outcome.Panic -> "panic" | Outcome.Unmodelled -> "unmodelled")
   | _ -> "bad-case"
 
-let () = register "enumproc" do_enumproc; register "enumapi" do_enumapi; register "enummod" do_enummod; register "enumext" do_enumext
+(* enumunion: the tables of the union's member types in order; a member type equal to an earlier one (same
+   name->value and value->name maps) is listed once, as the union resolution of goyang does *)
+let do_enumunion toks =
+  let rec go acc = function
+    | [] -> `Tables (L.rev acc)
+    | m :: rest ->
+      (match Enum.run_members false (parse_members m) with
+       | Outcome.Ok (e, []) -> go (e :: acc) rest
+       | Outcome.Ok _ | Outcome.Err -> (match go acc rest with `Unmodelled -> `Unmodelled | _ -> `Err)
+       | Outcome.Panic -> `Panic
+       | Outcome.Unmodelled -> `Unmodelled) in
+  match go [] toks with
+  | `Unmodelled -> "unmodelled"
+  | `Panic -> "panic"
+  | `Err -> "err"
+  | `Tables es ->
+    let key (e : Enum.coq_EnumType) =
+      (L.sort compare (L.map (fun (n, v) -> (L.map int_of_n n, string_of_z v)) e.Enum.coq_ToInt),
+       L.sort compare (L.map (fun (v, n) -> (string_of_z v, L.map int_of_n n)) e.Enum.coq_ToString)) in
+    let rec dedup seen = function
+      | [] -> []
+      | e :: r -> if L.mem (key e) seen then dedup seen r else e :: dedup (key e :: seen) r in
+    "ok " ^ Str_.concat " | " (L.map views (dedup [] es))
+
+(* enumdev: deviate replace { type ... } gives the leaf the replacement's table; the replaced type is resolved too *)
+let do_enumdev toks =
+  match toks with
+  | [bits; _form; old_; new_] ->
+    let run m = Enum.run_members (bits = "1") (parse_members m) in
+    (match run old_, run new_ with
+     | Outcome.Ok (_, []), Outcome.Ok (e, []) -> "ok " ^ views e
+     | Outcome.Unmodelled, _ | _, Outcome.Unmodelled -> "unmodelled"
+     | Outcome.Panic, _ | _, Outcome.Panic -> "panic"
+     | _ -> "err")
+  | _ -> "bad-case"
+
+let () = register "enumunion" do_enumunion; register "enumdev" do_enumdev; register "enumproc" do_enumproc; register "enumapi" do_enumapi; register "enummod" do_enummod; register "enumext" do_enumext
